@@ -255,4 +255,22 @@ def rule_results_are_awaited_values(ctx: Ctx):
     c05.rule_flag_chain(ctx, rule="C14.collect")
 
 
-RULES = [rule_flow, rule_collect, rule_none, rule_first, rule_every_callback, rule_stale_queue, rule_own_event, rule_registered_callable_runs, rule_results_are_awaited_values, rule_every_provider_contributes]
+def rule_only_this_events_callbacks(ctx: Ctx):
+    """C14.collect: the values that make up an event's result come from the before/on callbacks of *that* event: the convention
+    callbacks named after an event carry the same-event condition on every transition, however many events the transition had when
+    it was set up (a subclass can bind a second event to an inherited transition later)."""
+    from . import c02
+
+    c02.rule_scope(ctx, rule="C14.collect")
+
+
+def rule_providers_inspected_per_object(ctx: Ctx):
+    """C14.collect: which before/on callbacks a model or listener contributes is read from that object (instance attributes
+    included), not remembered from another object of the same class."""
+    from . import c12
+
+    c12.rule_allproviders(ctx, rule="C14.collect")
+    c12.rule_provider_attrs(ctx, rule="C14.collect", attrs_rule="C14.collect")
+
+
+RULES = [rule_flow, rule_collect, rule_none, rule_first, rule_every_callback, rule_stale_queue, rule_own_event, rule_registered_callable_runs, rule_results_are_awaited_values, rule_every_provider_contributes, rule_only_this_events_callbacks, rule_providers_inspected_per_object]
